@@ -144,6 +144,35 @@ def mutants(rel, qual):
         if len(f2.body) >= 2:
             f2.body.insert(len(f2.body) - 1, ast.parse("_audit_marker = None").body[0])
             res.append(("add-stmt-mid", ast.unparse(t)))
+        # extract the first argument of the first call that is the value of a top-level assignment
+        t = ast.parse(src)
+        f2 = find(t, qual)
+        for i, st in enumerate(f2.body):
+            if isinstance(st, ast.Assign) and isinstance(st.value, ast.Call) and st.value.args and isinstance(st.value.args[0], (ast.Call, ast.Attribute, ast.BinOp, ast.Subscript)):
+                tmp = ast.Assign(targets=[ast.Name(id="_extracted_arg", ctx=ast.Store())], value=st.value.args[0], lineno=0)
+                st.value.args[0] = ast.Name(id="_extracted_arg", ctx=ast.Load())
+                f2.body.insert(i, tmp)
+                ast.fix_missing_locations(t)
+                res.append(("extract-arg", ast.unparse(t)))
+                break
+        # swap two adjacent top-level assignments that do not share any name
+        t = ast.parse(src)
+        f2 = find(t, qual)
+        for i in range(len(f2.body) - 1):
+            a, b = f2.body[i], f2.body[i + 1]
+            if isinstance(a, ast.Assign) and isinstance(b, ast.Assign):
+                na = {n.id for n in ast.walk(a) if isinstance(n, ast.Name)}
+                nb = {n.id for n in ast.walk(b) if isinstance(n, ast.Name)}
+                pure = all(not isinstance(x, ast.Call) for x in list(ast.walk(a.value)) + list(ast.walk(b.value)))
+                if not (na & nb) and pure:
+                    f2.body[i], f2.body[i + 1] = b, a
+                    res.append(("reorder", ast.unparse(t)))
+                    break
+        # assert True at the top
+        t = ast.parse(src)
+        f2 = find(t, qual)
+        f2.body.insert(1 if has_doc else 0, ast.parse("assert True").body[0])
+        res.append(("add-assert", ast.unparse(t)))
         # first `if c: A else: B` with both branches -> `if not c: B else: A`
         t = ast.parse(src)
         f2 = find(t, qual)
